@@ -94,7 +94,7 @@ m = {
  "version": 1,
  "setup_cmd": "cd /verif && %s -m fsverif.setup" % PY,
  "hooks": {"guard": "FACTORYSIMPY_VERIF", "enable": "the checks set FACTORYSIMPY_VERIF=1 themselves; instrumentation is outside-in (Environment subclass, driver processes), there are no hooks in /repo sources",
-           "baseline_off_cmd": "cd /repo && /venv/bin/python -m pytest -q -p no:cacheprovider --timeout=900 tests",
+           "baseline_off_cmd": "cd /repo && env -u FACTORYSIMPY_VERIF /venv/bin/python -m pytest -ra -q -p no:cacheprovider --timeout=900 --continue-on-collection-errors",
            "source_commits": [], "add_only": True},
  "engines": [
    {"name": "store", "path": "fsverif/store_engine.py", "serves_properties": ["C01","C02","C04","C05","C06","C07","C11","C14"],
